@@ -174,6 +174,7 @@ def jobs(tier):
         out.append({"name": "moves/%s" % k, "kind": "moves", "leaf": k})
     for fmt in b["formats"]:
         out.append({"name": "validators/%s" % fmt, "kind": "validators", "fmt": fmt})
+    out.append({"name": "nested-containers", "kind": "nested", "formats": b["formats"]})
     return out
 
 
@@ -187,12 +188,51 @@ def run_job(job, ctx):
         _moves(job, ctx)
     elif job["kind"] == "validators":
         _validators(job, ctx)
+    elif job["kind"] == "nested":
+        _nested(job, ctx)
     else:
         _shapes(job, ctx)
 
 
 def _case(job, only):
     return {"jobparams_full": {k: v for k, v in job.items() if k not in ("single", "only")}, "only": only, "job": job["name"]}
+
+
+def _nested(job, ctx):
+    """a list of configurations that sits inside another container value (a typed dict entry, an item of a list of
+    lists), at the root and in a sub-schema: the rejected field is  <container>[key-or-index][item index].<field>"""
+    import cincoconfig as cc
+    only = job.get("only")
+    wraps = [("dict-of-list", "d", {"d": {"k": [{"c": 1}, {"c": 10}]}}, "d[k][1].c"),
+             ("list-of-list", "ll", {"ll": [[{"c": 1}], [{"c": 1}, {"c": 10}]]}, "ll[1][1].c"),
+             ("sub-dict-of-list", "sub", {"sub": {"d": {"k": [{"c": 10}]}}}, "sub.d[k][0].c"),
+             ("sub-list-of-list", "sub", {"sub": {"ll": [[{"c": 10}]]}}, "sub.ll[0][0].c")]
+    for wname, top, tree, want in wraps:
+        for route in ["load_tree", "ctor", "assign"] + ["loads/" + f for f in job["formats"]]:
+            ident = [wname, route]
+            if only is not None and only != ident:
+                continue
+            item = cc.Schema()
+            item.c = cc.IntField(max=9)
+            s = cc.Schema()
+            for sch in (s, s.sub):
+                sch.d = cc.DictField(cc.StringField(), cc.ListField(item))
+                sch.ll = cc.ListField(cc.ListField(item))
+            cfg = s()
+            ctx.transitions += 1
+            if route == "load_tree":
+                exc = attempt(lambda: cfg.load_tree(json.loads(json.dumps(tree))))
+            elif route == "ctor":
+                exc = attempt(lambda: s(**json.loads(json.dumps(tree))))
+            elif route == "assign":
+                exc = attempt(lambda: setattr(cfg, top, json.loads(json.dumps(tree))[top]))
+            else:
+                fmt = route.split("/")[1]
+                exc = attempt(lambda: cfg.loads(cc.ConfigFormat.get(fmt).dumps(None, tree), fmt))
+            ctx.case(("nested", wname, route), "nested:%s:%s" % (route.split("/")[0], type(exc).__name__ if exc else "accepted"), True)
+            judge(ctx, job, ident, "C15|nested-containers|%s|%s" % (wname, route.split("/")[0]), "a list of configurations inside %s, value 10 for c (max 9) via %s" % (wname, route), exc, want, None)
+    ctx.states += 1
+    ctx.traces += 1
 
 
 class DomainError(Exception):
